@@ -709,14 +709,15 @@ func (s *Session) SetUnmarshaller(unmarshaller Unmarshaller) {
 }
 
 func (s *Session) Stop() (err error) {
-	defer func() {
-		s.eventHandler.Clean()
-	}()
-
 	err = s.Logout()
 	if err != nil {
+		s.eventHandler.Clean()
 		return fmt.Errorf("sendWithErrorCheck logout request: %w", err)
 	}
+
+	// The handlers registered so far are dropped before, not after, the logout
+	// handler below is added: it has to survive to end the session on the peer's answer.
+	s.eventHandler.Clean()
 
 	delayTimer := time.AfterFunc(s.LogonSettings.CloseTimeout, func() {
 		s.cancel()
